@@ -28,6 +28,9 @@ type Base struct {
 	Endo int    `json:"endo,omitempty"` // apply (x,y) -> (beta^Endo x, y)
 	Neg  bool   `json:"neg,omitempty"`  // negate
 	Via  string `json:"via,omitempty"`  // how the implementation value is created: coords | comp | uncomp
+	// Reuse: the receiver object held another point before and was already serialised and compared when the
+	// value is decoded into it (object history must not matter).
+	Reuse bool `json:"reuse,omitempty"`
 }
 
 // Step is one value-preserving representation change.
@@ -111,9 +114,25 @@ func (e *BuilderError) Error() string { return "builder: " + e.Msg }
 
 // FromModel creates an element with Z = 1 from a model point.
 func FromModel(p ref.Point, via string) (*secp256k1.Element, error) {
-	e := secp256k1.NewElement()
+	return fromModelInto(secp256k1.NewElement(), p, via)
+}
+
+// usedElement returns an element object with a history: it holds 5G (Z != 1) and was serialised, compared
+// and tested before.
+func usedElement() *secp256k1.Element {
+	e := secp256k1.Base().Double().Double().Add(secp256k1.Base())
+	_ = e.Encode()
+	_ = e.EncodeUncompressed()
+	_ = e.Hex()
+	_ = e.XCoordinate()
+	_ = e.Equal(secp256k1.Base())
+	_ = e.IsIdentity()
+	return e
+}
+
+func fromModelInto(e *secp256k1.Element, p ref.Point, via string) (*secp256k1.Element, error) {
 	if p.Inf {
-		return e, nil
+		return e.Identity(), nil
 	}
 	var err error
 	switch via {
@@ -339,6 +358,17 @@ func apply(e *secp256k1.Element, st Step, cur ref.Point) (*secp256k1.Element, er
 			return nil, &BuilderError{Msg: "Decode(EncodeUncompressed) rejected: " + err.Error()}
 		}
 		return r, nil
+	case "selfdec", "selfdecunc":
+		// decode the element's own encoding into the same object, after it was serialised both ways
+		comp, unc := e.Encode(), e.EncodeUncompressed()
+		data := comp
+		if st.Op == "selfdecunc" {
+			data = unc
+		}
+		if err := e.Decode(data); err != nil {
+			return nil, &BuilderError{Msg: "Decode of own encoding rejected: " + err.Error()}
+		}
+		return e, nil
 	case "copy":
 		return e.Copy(), nil
 	case "set":
@@ -385,7 +415,11 @@ func apply(e *secp256k1.Element, st Step, cur ref.Point) (*secp256k1.Element, er
 // Build carries out the specification.
 func Build(s Spec) (*Built, error) {
 	want := s.Base.Point()
-	e, err := FromModel(want, s.Base.Via)
+	recv := secp256k1.NewElement()
+	if s.Base.Reuse {
+		recv = usedElement()
+	}
+	e, err := fromModelInto(recv, want, s.Base.Via)
 	if err != nil {
 		return nil, err
 	}
@@ -400,7 +434,7 @@ func Build(s Spec) (*Built, error) {
 // ---------------------------------------------------------------------------------------------------
 
 var (
-	stepsAny  = []string{"addO", "Oadd", "subO", "addsub", "subadd", "dblsub", "negneg", "decenc", "decunc", "copy", "set", "rescale", "rescale", "target", "target"}
+	stepsAny  = []string{"addO", "Oadd", "subO", "addsub", "subadd", "dblsub", "negneg", "decenc", "decunc", "selfdec", "selfdecunc", "copy", "set", "rescale", "rescale", "target", "target"}
 	stepsSlow = []string{"dblhalf", "mulinv"}
 	stepsID   = []string{"id:p-p", "id:p+negp", "id:mul0", "id:kn-k", "id:o-o", "id:decode00", "id:mulnil", "id:wb", "id:wb"}
 )
@@ -460,6 +494,7 @@ func BaseGen() *rapid.Generator[Base] {
 		}
 		b.Neg = rapid.IntRange(0, 7).Draw(t, "neg") == 0
 		b.Via = rapid.SampledFrom([]string{"coords", "comp", "uncomp"}).Draw(t, "via")
+		b.Reuse = gen.Chance(t, "reuse", 1, 4)
 		return b
 	})
 }
